@@ -20,7 +20,13 @@ MANIFEST = {
                  "x query/haystack subsets, every result compared with a float64 brute-force minimum-image oracle",
     "text": "Every member of: cell menu of vlib.grids incl. unreduced forms (quick + the tric_45_60_75 pair; the menu contains a "
             "cell for each single non-zero off-diagonal box entry: gamma-only hex60 (b_x), beta-only mono110 (c_x), alpha-only "
-            "mono_a75 (c_y) - the covered patterns are measured into the evidence) and no cell x cutoff in "
+            "mono_a75 (c_y) - the covered patterns are measured into the evidence) and no cell; plus THIN, STRONGLY SKEWED cells: "
+            "angles {(116.2,68.4,63.6), (116,68,64), (64,116,68), (68,64,116), (60,120,120)} ((120,60,60) is degenerate) x edge "
+            "lengths (5.73, 4.10, 2.42) with the short edge as c, b (thorough: also a), reduced and with b+=a, c+=a-b (c_y of "
+            "either sign occurs), filled densely with a jittered 6x6x6 (thorough also 8x8x8) fractional lattice, as generated and "
+            "with every atom pushed to another image, cutoff in {0.35, 0.433, 0.5} (thorough +0.25) x smallest width, i.e. the "
+            "regime cutoff in (width/3, width/2] where the code uses 3 voxels across the cell; thorough also the 6x6x6 fill in "
+            "every ordinary menu cell x cutoff in "
             "{0.05, 0.25, 0.5} x smallest cell width x n in {1,2,3,8,64} x position designs {4x4x4 fractional lattice + "
             "low-discrepancy jitter as generated / wrapped into the brick cell / every atom in a different image of "
             "{-2..2}^3; points exactly on and +-1e-4 around multiples of the voxel edge neighborlist.cpp derives for "
@@ -51,6 +57,8 @@ from vlib.refmodels.image_design import needed_R, measure_radii, _RC
 
 MARGIN = 1e-5
 CUTFRACS = (0.05, 0.25, 0.5)
+THIN_CUTFRACS = (0.25, 0.35, 0.433, 0.5)       # thin cells: cutoff/width in (1/3, 1/2] gives the 3-voxel regime
+DESIGNS_DENSE = ("dense", "dense-images")
 NS = (1, 2, 3, 8, 64)
 SUBSETS = ("all/all", "one/all", "disjoint", "overlap")
 DESIGNS_P = ("lattice", "lattice-brick", "lattice-images", "voxel", "voxel-brick", "voxel-images",
@@ -106,7 +114,7 @@ def _menu(quick):
         m = grids.cell_menu(quick=quick, unreduced=True)
         if quick:
             m = m + [c for c in grids.cell_menu(quick=False, unreduced=True) if c["name"].startswith(QUICK_EXTRA)]
-        _MENU[quick] = m
+        _MENU[quick] = m + nd.thin_cells(quick)
     return _MENU[quick]
 
 
@@ -154,6 +162,16 @@ def cases(quick):
     out = []
     menu = _menu(quick)
     for ci, cell in enumerate(list(menu) + [None]):
+        if cell is not None and cell.get("thin"):
+            for cf in THIN_CUTFRACS:
+                if quick and cf == THIN_CUTFRACS[0]:
+                    continue
+                for n in ((216,) if quick else (216, 512)):
+                    for d in DESIGNS_DENSE:
+                        if quick and d == "dense-images" and cf != 0.433:
+                            continue
+                        out.append((ci, cf, n, d, 0, 1))
+            continue
         designs = DESIGNS_P if cell is not None else DESIGNS_O
         for cf in CUTFRACS:
             for n in NS:
@@ -162,6 +180,9 @@ def cases(quick):
                     step = 3 if n == 64 else 48
                     for v0 in range(0, nv, step):
                         out.append((ci, cf, n, d, v0, min(nv, v0 + step)))
+        if cell is not None and not quick:
+            for cf in (0.25, 0.5):
+                out.append((ci, cf, 216, "dense", 0, 1))
     return out
 
 
@@ -186,7 +207,11 @@ def _build(case, quick, seed):
     for variant in range(v0, v1):
         for f in (0, 1):
             V = gen["vectors"] * FRAME_SCALE[f]
-            if design.startswith("lattice"):
+            if design.startswith("dense"):
+                x = nd.dense_frac(int(round(n ** (1 / 3.0))), seed, f) @ V
+                if design == "dense-images":
+                    x = x + nd.image_shifts(n, f) @ V
+            elif design.startswith("lattice"):
                 x = nd.lattice_frac(n, seed, f) @ V
                 if design == "lattice-brick":
                     x = _wrap32(x, nd.reduce_like_code(_stored_vectors(gen, FRAME_SCALE[f])))
@@ -279,8 +304,13 @@ def _oracle(xyz32, ucv, R):
             d = np.sqrt((disp[f] * disp[f]).sum(1))
             st = np.zeros(len(d), bool)
         else:
-            d, _b, nb = mic.min_image(disp[f], np.asarray(ucv[f], np.float64), R)
-            st = np.any(nb != 0, axis=1)
+            P = disp.shape[1]
+            d = np.zeros(P)
+            st = np.zeros(P, bool)
+            for a in range(0, P, 6000):
+                dd_, _b, nb = mic.min_image(disp[f][a:a + 6000], np.asarray(ucv[f], np.float64), R)
+                d[a:a + 6000] = dd_
+                st[a:a + 6000] = np.any(nb != 0, axis=1)
         D[f][iu] = d
         D[f].T[iu] = d
         S[f][iu] = st
@@ -295,7 +325,7 @@ def run_case(arg):
     ci, cf, n, design, v0, v1 = case
     xyz, lengths, angles, cutoff, cell, keys = _build(case, quick, seed)
     st = dict(evals=0, excluded=0, nontrivial=[], nt_open=0, err=0.0, abserr=0.0, pairs_in=0, pairs_out=0,
-              straddling_in=0, frames=len(keys), sample=None, inbrick=0, outside=0, atface=0)
+              straddling_in=0, frames=len(keys), sample=None, inbrick=0, outside=0, atface=0, zshared=0)
     recs = []
     cc = _cellclass(cell)
     if cell is None:
@@ -323,6 +353,7 @@ def run_case(arg):
     COUT = (D >= cutoff + MARGIN) & off
     POS = []
     red = {} if ucv is None else {f: nd.reduce_like_code(ucv[keys.index((v0, f))]) for f in (0, 1)}
+    zshare = {} if ucv is None else {f: nd.z_window_shares_images(ucv[keys.index((v0, f))], cutoff) for f in (0, 1)}
     for fi in range(F):
         vec = None if ucv is None else ucv[fi]
         amb, cin, cout = AMB[fi], CIN[fi], COUT[fi]
@@ -334,6 +365,9 @@ def run_case(arg):
             if pos == "inbrick" and nd.at_face(t.xyz[fi], red[keys[fi][1]]):
                 pos = "inbrick-at-face"
                 st["atface"] += 1
+            if zshare[keys[fi][1]]:
+                pos += "+zwin-shared"
+                st["zshared"] += 1
         POS.append(pos)
         st["excluded"] += int(amb.sum()) // 2
         st["pairs_in"] += int(cin.sum()) // 2
@@ -451,7 +485,7 @@ def run(ctx):
     for i, r in zip(order, res_o):
         res[i] = r
     nontrivial = set()
-    tot = dict(evals=0, excluded=0, nt_open=0, pairs_in=0, pairs_out=0, straddling_in=0, frames=0, inbrick=0, outside=0, atface=0)
+    tot = dict(evals=0, excluded=0, nt_open=0, pairs_in=0, pairs_out=0, straddling_in=0, frames=0, inbrick=0, outside=0, atface=0, zshared=0)
     err = abserr = 0.0
     samples = []
     per_design = {}
@@ -489,6 +523,7 @@ def run(ctx):
         "frames_all_atoms_in_brick_cell": tot["inbrick"],
         "frames_some_atom_outside_brick_cell": tot["outside"],
         "frames_in_brick_with_atom_within_2ulp_of_upper_face": tot["atface"],
+        "frames_z_window_shared_by_two_images_with_partial_y_window": tot["zshared"],
         "nontrivial_by_design": per_design,
         "nontrivial_open_cases": tot["nt_open"],
         "pairs_clearly_inside": tot["pairs_in"],
@@ -502,7 +537,8 @@ def run(ctx):
         "max_abs_err_compute_distances": abserr,
         "tolerance": "%d*eps32*(max|coordinate| + sum|cell vector components|)" % C_TOL,
         "axes": {"cells": [c["name"] for c in menu] + ["none"], "cutoff_fractions": list(CUTFRACS), "n": list(NS),
-                 "designs_periodic": list(DESIGNS_P), "designs_open": list(DESIGNS_O), "subsets": list(SUBSETS),
+                 "designs_periodic": list(DESIGNS_P), "designs_thin_cells": list(DESIGNS_DENSE),
+                 "thin_cell_cutoff_fractions": list(THIN_CUTFRACS), "thin_cell_n": [216] if quick else [216, 512], "designs_open": list(DESIGNS_O), "subsets": list(SUBSETS),
                  "frame_phases": 2, "frame_cell_scale": list(FRAME_SCALE),
                  "voxel_design_level": {str(n): _base_level(n, quick) for n in NS},
                  "voxel_design_levels": "-1: boundary numbers {0,n} x no edge offset x 2 x-positions; 0: {0,n} x 9 edge "
